@@ -61,6 +61,11 @@ SizesOK(s) == \A i \in Idx(s) : LET c == s.chunks[i] IN
                  /\ (CKind(c) # 3 => CSize(c) >= MinChunk)
 \* eager coalescing: no two neighbouring chunks are both free (bin, dv or top)
 NoAdjacentFree(s) == \A i \in 1 .. Len(s.chunks) - 1 : ~(IsFreeKind(s.chunks[i]) /\ IsFreeKind(s.chunks[i + 1]))
+\* a free chunk (bin or dv) keeps a copy of its size in the word behind it (the next chunk's
+\* prev_foot): backward coalescing trusts it.  chunk[4] is that word as read by the driver
+\* (absent or negative: not observed)
+FootOK(s) == \A i \in Idx(s) : LET c == s.chunks[i] IN
+                 (CKind(c) \in {0, 2} /\ Len(c) >= 4 /\ c[4] >= 0) => c[4] = CSize(c)
 \* exactly one top, the last chunk of the head segment, Foot bytes before its end; at most one dv
 HeadOK(H) == Len(H) > 0 =>
     LET s == H[1] n == Len(s.chunks) IN
@@ -77,7 +82,7 @@ TailOK(H) == \A k \in 2 .. Len(H) :
 SegsDisjoint(H) == \A j, k \in 1 .. Len(H) : j # k =>
     (H[j].base + H[j].size <= H[k].base \/ H[k].base + H[k].size <= H[j].base)
 
-Structural(H) == /\ \A k \in 1 .. Len(H) : Tiled(H[k]) /\ SizesOK(H[k]) /\ NoAdjacentFree(H[k])
+Structural(H) == /\ \A k \in 1 .. Len(H) : Tiled(H[k]) /\ SizesOK(H[k]) /\ NoAdjacentFree(H[k]) /\ FootOK(H[k])
                  /\ HeadOK(H) /\ TailOK(H) /\ SegsDisjoint(H)
 
 -----------------------------------------------------------------------------
@@ -112,11 +117,12 @@ HasRoom(H, size, align) ==
 
 \* names of the failed conjuncts, for the evidence
 Drift(H, live, mapped) ==
-    {n \in {"Tiled", "SizesOK", "NoAdjacentFree", "HeadOK", "TailOK", "SegsDisjoint",
+    {n \in {"Tiled", "SizesOK", "NoAdjacentFree", "FootOK", "HeadOK", "TailOK", "SegsDisjoint",
             "BlocksHoused", "NoWaste", "NoLeak", "HeldIsSegments"} :
         ~ CASE n = "Tiled"          -> \A k \in 1 .. Len(H) : Tiled(H[k])
             [] n = "SizesOK"        -> \A k \in 1 .. Len(H) : SizesOK(H[k])
             [] n = "NoAdjacentFree" -> \A k \in 1 .. Len(H) : NoAdjacentFree(H[k])
+            [] n = "FootOK"         -> \A k \in 1 .. Len(H) : FootOK(H[k])
             [] n = "HeadOK"         -> HeadOK(H)
             [] n = "TailOK"         -> TailOK(H)
             [] n = "SegsDisjoint"   -> SegsDisjoint(H)
